@@ -184,10 +184,10 @@ theorem actRemove_class {o : Opts} {e : Bool} {key : Bytes} (ha : o.allow = fals
     | err e' => rw [hx] at her; cases her; exact conRemove_not_special hx
     | panic => rw [hx] at her; cases her
 
-theorem actReplace_class {o : Opts} {e : Bool} {val : Node} {key : Bytes} (hkey : key ≠ []) :
+theorem actReplace_class {o : Opts} {e : Bool} {val : Node} {key : Bytes} :
     ActC e key (actReplace o val) (Spec.replaceIn (specOpts o) (den val)) := by
   intro s pc c hp hc hf
-  have hget := conGet_refines (o := o) s hp hc hkey
+  have hget := conGet_refines (o := o) (key := key) s hp hc
   have hrel := replaceIn_getIn (specOpts o) (den val) (den pc) key
   rw [hf] at hrel
   obtain ⟨c', hc'⟩ := hrel
@@ -197,43 +197,43 @@ theorem actReplace_class {o : Opts} {e : Bool} {val : Node} {key : Bytes} (hkey 
     ErrC_missing (Or.inl (replaceIn_fail hf (den_isContainer hp hc)))⟩
 
 theorem conGet_class {o : Opts} {e : Bool} {pc : Node} {key : Bytes} {b : Bool} {c : Cause} (s : Node)
-    (hp : Inv e pc) (hc : isCon pc = true) (hkey : key ≠ [])
+    (hp : Inv e pc) (hc : isCon pc = true)
     (hf : Spec.getIn (specOpts o) b (den pc) key = .fail c) :
     ∃ er, conGet o s pc key = .err er ∧ ErrC c er ∧ (b = true → er ≠ .missing) := by
   rcases getIn_fail hf (den_isContainer hp hc) with ⟨ms, hd, hl, rfl, rfl⟩ | ⟨_, rfl⟩
   · obtain ⟨keys, obj, rfl, hn⟩ := lookupN_none_of_den hp hc hd hl
-    exact ⟨.missing, by rw [conGet_doc o s keys obj key hkey, hn], ErrC_missing (Or.inl rfl),
+    exact ⟨.missing, by rw [conGet_doc o s keys obj key, hn], ErrC_missing (Or.inl rfl),
       fun h => by cases h⟩
   · cases b with
     | false =>
-      have hget := conGet_refines (o := o) s hp hc hkey
+      have hget := conGet_refines (o := o) (key := key) s hp hc
       rw [hf] at hget
       obtain ⟨er, her⟩ := hget
       exact ⟨er, her, ErrC_plain (Or.inl rfl) (conGet_not_special her), fun h => by cases h⟩
     | true =>
-      have hget := conGet_refines_test (o := o) s hp hc hkey
+      have hget := conGet_refines_test (o := o) (key := key) s hp hc
       rw [hf] at hget
       obtain ⟨er, her, hne⟩ := hget
       exact ⟨er, her, ErrC_plain (Or.inl rfl) (conGet_not_special her), fun _ => hne⟩
 
-theorem actMoveSrc_class {o : Opts} {e : Bool} {key : Bytes} (hkey : key ≠ []) :
+theorem actMoveSrc_class {o : Opts} {e : Bool} {key : Bytes} :
     ActC e key (actMoveSrc o) (Spec.removeIn (specOpts o)) := by
   intro s pc c hp hc hf
   rcases removeIn_fail hf (den_isContainer hp hc) with ⟨ms, hd, hl, rfl⟩ | ⟨_, rfl⟩
   · obtain ⟨keys, obj, rfl, hn⟩ := lookupN_none_of_den hp hc hd hl
-    exact ⟨.missing, by simp [actMoveSrc, conGet_doc o s keys obj key hkey, hn], ErrC_missing (Or.inl rfl)⟩
+    exact ⟨.missing, by simp [actMoveSrc, conGet_doc o s keys obj key, hn], ErrC_missing (Or.inl rfl)⟩
   · have hrel := removeIn_getIn (specOpts o) (den pc) key
     rw [hf] at hrel
     obtain ⟨c', hc'⟩ := hrel
-    have hget := conGet_refines (o := o) s hp hc hkey
+    have hget := conGet_refines (o := o) (key := key) s hp hc
     rw [hc'] at hget
     obtain ⟨er, her⟩ := hget
     exact ⟨er, by simp [actMoveSrc, her], ErrC_plain (Or.inl rfl) (conGet_not_special her)⟩
 
-theorem actCopySrc_class {o : Opts} {e : Bool} {key : Bytes} (hkey : key ≠ []) :
+theorem actCopySrc_class {o : Opts} {e : Bool} {key : Bytes} :
     ActC e key (actCopySrc o) (Spec.getIn (specOpts o) false) := by
   intro s pc c hp hc hf
-  obtain ⟨er, her, hcl, _⟩ := conGet_class (o := o) s hp hc hkey hf
+  obtain ⟨er, her, hcl, _⟩ := conGet_class (o := o) s hp hc hf
   exact ⟨er, by simp [actCopySrc, her], hcl⟩
 
 theorem actProbe_class {e : Bool} {key : Bytes} :
@@ -242,12 +242,12 @@ theorem actProbe_class {e : Bool} {key : Bytes} :
   cases hf
 
 theorem actTest_class (hEq : EqSpec) {o : Opts} {e : Bool} {ov : Option Cst} {key : Bytes}
-    (hov : ∀ c, ov = some c → c.valueOf.noDup = true) (hkey : key ≠ []) :
+    (hov : ∀ c, ov = some c → c.valueOf.noDup = true) :
     ActC e key (actTest o ov) (testIn (specOpts o) ((ov.map Cst.valueOf).getD .null)) := by
   intro s pc c hp hc hf
   simp only [testIn] at hf
   rcases bind_fail hf with hg | ⟨pv, hg, hrest⟩
-  · obtain ⟨er, her, hcl, hne⟩ := conGet_class (o := o) s hp hc hkey hg
+  · obtain ⟨er, her, hcl, hne⟩ := conGet_class (o := o) s hp hc hg
     refine ⟨er, ?_, hcl⟩
     have hne' := hne rfl
     simp only [actTest, her]
@@ -255,7 +255,7 @@ theorem actTest_class (hEq : EqSpec) {o : Opts} {e : Bool} {ov : Option Cst} {ke
   · rcases bind_fail hrest with ht | ⟨u, _, hx⟩
     · have hcause := testEq_fail ht
       subst hcause
-      have hfull := conGet_test_full (o := o) s hp hc hkey
+      have hfull := conGet_test_full (o := o) (key := key) s hp hc
       rw [hg] at hfull
       refine ⟨.testFailed, ?_, ErrC_test⟩
       rcases hfull with ⟨n, hn, hn1, hn2, _⟩ | ⟨hmiss, hnull⟩
@@ -288,13 +288,13 @@ def WalkC {α} (c : Cause) (w : Walk α) : Prop :=
 theorem withPath_class {α β} {o : Opts} {e : Bool} {r : Root} {path : Bytes} {toks : List Bytes}
     {act : Node → Node → Bytes → Outcome (Node × α)} {f : Value → Bytes → Res (Value × β)}
     (hr : InvRoot e r) (hp : Spec.parsePointer path = some toks) (hne : toks ≠ [])
-    (hact : ∀ key, key ∈ toks → key ≠ [] → ActC e key act f) {c : Cause}
+    (hact : ∀ key, key ∈ toks → ActC e key act f) {c : Cause}
     (h : Spec.atParent (specOpts o) f (den r.con) toks = .fail c) :
     WalkC c (withPath o r path act) := by
-  obtain ⟨ts, key, htoks, hkey, hnav⟩ := withPath_nav (o := o) hr.1 hr.2 hp hne
+  obtain ⟨ts, key, htoks, hnav⟩ := withPath_nav (o := o) hr.1 hr.2 hp hne
   subst htoks
   rw [atParent_nav] at h
-  have hA := hact key (by simp) hkey
+  have hA := hact key (by simp)
   cases hn : nav (specOpts o) (den r.con) ts with
   | unspec => rw [hn] at h; cases h
   | fail c' =>
@@ -361,7 +361,7 @@ theorem opAdd_class {o : Opts} {e : Bool} {r : Root} {op : Op} {sop : Spec.Op} {
       rw [hd] at h
       rcases bind_fail h with hf | ⟨a, _, hx⟩
       · exact liftWalk_class (fun _ => rfl)
-          (withPath_class hr hp (by simp) (fun key hmem _ => actAdd_class hc (hq _ hp key hmem)) hf)
+          (withPath_class hr hp (by simp) (fun key hmem => actAdd_class hc (hq _ hp key hmem)) hf)
       · cases hx
 
 theorem opRemove_class {o : Opts} {e : Bool} {r : Root} {op : Op} {sop : Spec.Op}
@@ -380,7 +380,7 @@ theorem opRemove_class {o : Opts} {e : Bool} {r : Root} {op : Op} {sop : Spec.Op
         rw [opRemove_eq]
         rcases bind_fail h with hf | ⟨a, _, hx⟩
         · exact liftWalk_class (fun _ => by simp [ha])
-            (withPath_class hr hp (by simp) (fun key _ _ => actRemove_class ha) hf)
+            (withPath_class hr hp (by simp) (fun key _ => actRemove_class ha) hf)
         · cases hx
       | true =>
         -- with AllowMissingPathOnRemove the specification never fails on a remove
@@ -428,7 +428,7 @@ theorem opReplace_class {o : Opts} {e : Bool} {r : Root} {op : Op} {sop : Spec.O
       rw [hd] at h
       rcases bind_fail h with hf | ⟨a, _, hx⟩
       · exact liftWalk_class (fun _ => rfl)
-          (withPath_class hr hp (by simp) (fun key _ hkey => actReplace_class hkey) hf)
+          (withPath_class hr hp (by simp) (fun key _ => actReplace_class) hf)
       · cases hx
 
 theorem opMove_class {o : Opts} {e : Bool} {r : Root} {op : Op} {sop : Spec.Op}
@@ -465,14 +465,14 @@ theorem opMove_class {o : Opts} {e : Bool} {r : Root} {op : Op} {sop : Spec.Op}
           rw [opMove_eq o r op f hfo hne]
           rcases bind_fail h with hf | ⟨dv, hres, hrest⟩
           · have hw := withPath_class (o := o) (act := actMoveSrc o) hr hpf (by simp)
-              (fun key _ hkey => actMoveSrc_class hkey) hf
+              (fun key _ => actMoveSrc_class) hf
             rcases hw with ⟨con', hw, rfl⟩ | ⟨er, hw, hcl⟩
             · rw [hw]; exact ⟨.missing, rfl, ErrC_missing (Or.inr rfl)⟩
             · rw [hw]; exact ⟨er, rfl, hcl⟩
           · have hw : WalkRef e r (fun val old => Inv e val ∧ den val = old)
                 (Spec.atParent (specOpts o) (Spec.removeIn (specOpts o)) (den r.con) (t :: ts))
                 (withPath o r f (actMoveSrc o)) :=
-              withPath_walkRef hr hpf (by simp) (fun key _ hkey => actMoveSrc_ref hkey)
+              withPath_walkRef hr hpf (by simp) (fun key _ => actMoveSrc_ref)
             rw [hres] at hw
             simp only [WalkRef] at hw
             obtain ⟨con', val, hw, h1, h2, h3, h4, h5⟩ := hw
@@ -487,7 +487,7 @@ theorem opMove_class {o : Opts} {e : Bool} {r : Root} {op : Op} {sop : Spec.Op}
               · rw [← h3, ← h5] at hf
                 exact liftWalk_class (fun _ => rfl)
                   (withPath_class (o := o) hr1 hp (by simp)
-                    (fun key hmem _ => actAdd_class h4 (hq _ hp key hmem)) hf)
+                    (fun key hmem => actAdd_class h4 (hq _ hp key hmem)) hf)
               · cases hx
 
 /-- the two ways of writing `test` fail with the same cause -/
@@ -549,7 +549,7 @@ theorem opTest_class (hEq : EqSpec) {o : Opts} {e : Bool} {r : Root} {op : Op} {
       rw [opTest_eq_nonroot o r op hne]
       have hf := test_spec_cause (specOpts o) _ (den r.con) acc (t :: ts) (by simp) h
       exact liftWalk_class (fun _ => rfl)
-        (withPath_class hr hp (by simp) (fun key _ hkey => actTest_class hEq hov hkey) hf)
+        (withPath_class hr hp (by simp) (fun key _ => actTest_class hEq hov) hf)
 
 /-- the outcome of `copy` against the cause of the specification -/
 def OpC2 (c : Cause) (out : Outcome (Root × Int)) : Prop := ∃ er, out = .err er ∧ ErrC c er
@@ -583,8 +583,11 @@ theorem opCopy_class {o : Opts} {r : Root} {op : Op} {sop : Spec.Op} {f : Bytes}
           simp only [eng_copySrc] at hsrc
           rcases bind_fail hsrc with hf | ⟨a, _, hx⟩
           · have hw := withPath_class (o := o) (act := actCopySrc o) hr hpf (by simp)
-              (fun key _ hkey => actCopySrc_class hkey) hf
+              (fun key _ => actCopySrc_class) hf
             rw [← copySource_eq] at hw
+            have hne : f ≠ [] := fun h => by
+              have := (parsePointer_nil_iff hpf).2 h; cases this
+            rw [copyFirst_ne o r hne]
             obtain ⟨ha, hcl⟩ := failOfW_class (r := r) hw
             simp only [ha]
             exact hcl
@@ -600,14 +603,14 @@ theorem opCopy_class {o : Opts} {r : Root} {op : Op} {sop : Spec.Op} {f : Bytes}
           · -- the destination parent is not reachable
             rw [← hd1] at hprobe
             have hw := withPath_class (o := o) (act := actProbe) hr1 hp (by simp)
-              (fun key _ _ => actProbe_class) hprobe
+              (fun key _ => actProbe_class) hprobe
             obtain ⟨ha2, hcl⟩ := failOfW_class (r := r1) hw
             simp only [ha2]
             exact hcl
           · have hw2 : WalkRef o.esc r1 (fun _ _ => True)
                 (Spec.atParent (specOpts o) (fun p _ => (.ok (p, ()) : Res (Value × Unit))) (den r1.con) (pt :: pts))
                 (withPath o r1 op.path actProbe) :=
-              withPath_walkRef hr1 hp (by simp) (fun key _ _ => actProbe_ref)
+              withPath_walkRef hr1 hp (by simp) (fun key _ => actProbe_ref)
             rw [hd1, hres2] at hw2
             simp only [WalkRef] at hw2
             obtain ⟨con2, a, hw, h21, h22, h23, _⟩ := hw2
@@ -626,7 +629,7 @@ theorem opCopy_class {o : Opts} {r : Root} {op : Op} {sop : Spec.Op} {f : Bytes}
             rcases bind_fail hrest2 with hadd | ⟨vb, _, hx⟩
             · rw [← hd2, ← hdv, ← hcpd] at hadd
               have hw3 := withPath_class (o := o) (act := actAdd o (deepCopy o.esc val).1) (path := op.path)
-                hr2 hp (by simp) (fun key hmem _ => actAdd_class hcp (hq _ hp key hmem)) hadd
+                hr2 hp (by simp) (fun key hmem => actAdd_class hcp (hq _ hp key hmem)) hadd
               obtain ⟨ha3, hcl⟩ := failOfW_class (r := { r1 with con := con2 }) hw3
               simp only [ha3]
               exact hcl
